@@ -1,20 +1,21 @@
 #!/bin/sh
 # Development helper (not a registered command): runs a check against a scratch worktree of /repo with a seeded change applied.
 # usage: tools/seedtest.sh <patch.diff> <ID> [tier]
-# The worktree /tmp/wt-seed and the mirror harness /tmp/mirror-seed are reused between calls; evidence is restored afterwards.
+# The worktree /tmp/wt-$TAG and the mirror harness /tmp/mirror-$TAG are reused between calls; evidence is restored afterwards.
 set -e
+TAG=${SEEDTAG:-seed}   # SEEDTAG selects a private worktree/mirror/target (several confirmations can run side by side)
 P=$(realpath "$1"); ID=$2; TIER=${3:-quick}
 V=$(cd "$(dirname "$0")/.." && pwd)
-if [ ! -d /tmp/wt-seed ]; then git -C /repo worktree add --detach /tmp/wt-seed HEAD >/dev/null 2>&1; fi
-git -C /tmp/wt-seed checkout -q -- . && git -C /tmp/wt-seed clean -fdq && git -C /tmp/wt-seed checkout -q --detach "$(git -C /repo rev-parse HEAD)"
-git -C /tmp/wt-seed apply "$P"
-[ -d /tmp/mirror-seed ] || "$V/tools/mkmirror.sh" /tmp/wt-seed /tmp/mirror-seed >/dev/null
+if [ ! -d /tmp/wt-$TAG ]; then git -C /repo worktree add --detach /tmp/wt-$TAG HEAD >/dev/null 2>&1; fi
+git -C /tmp/wt-$TAG checkout -q -- . && git -C /tmp/wt-$TAG clean -fdq && git -C /tmp/wt-$TAG checkout -q --detach "$(git -C /repo rev-parse HEAD)"
+git -C /tmp/wt-$TAG apply "$P"
+[ -d /tmp/mirror-$TAG ] || "$V/tools/mkmirror.sh" /tmp/wt-$TAG /tmp/mirror-$TAG >/dev/null
 cd "$V"
 set +e
-VERIF_HARNESS_DIR=/tmp/mirror-seed ./check "$ID" --tier "$TIER" > "work/seed-$ID.log" 2>&1
+VERIF_HARNESS_DIR=/tmp/mirror-$TAG ./check "$ID" --tier "$TIER" > "work/$TAG-$ID.log" 2>&1
 rc=$?
 set -e
 git -C "$V" checkout -q -- "evidence/$ID.json" 2>/dev/null || true
-echo "rc=$rc violations=$(grep -c '^VIOLATION' work/seed-$ID.log) known=$(grep -c '^KNOWN' work/seed-$ID.log)"
-grep '^VIOLATION' "work/seed-$ID.log" | head -3
-tail -1 "work/seed-$ID.log" | cut -c1-300
+echo "rc=$rc violations=$(grep -c '^VIOLATION' work/$TAG-$ID.log) known=$(grep -c '^KNOWN' work/$TAG-$ID.log)"
+grep '^VIOLATION' "work/$TAG-$ID.log" | head -3
+tail -1 "work/$TAG-$ID.log" | cut -c1-300
